@@ -5,6 +5,7 @@ import (
 	"encoding/json"
 	"fmt"
 	"os"
+	"runtime/debug"
 	"sort"
 	"strconv"
 	"strings"
@@ -175,6 +176,8 @@ func RunWorker(t *testing.T) {
 	if prop == "" {
 		t.Skip("VERIF_PROP not set")
 	}
+	// runaway recursion must die in milliseconds, not at the default 1 GB
+	debug.SetMaxStack(envInt("VERIF_MAX_STACK_MB", 48) << 20)
 	ws := Worlds[prop]
 	if len(ws) == 0 {
 		fmt.Fprintf(os.Stderr, "HARNESS: no world for %s\n", prop)
